@@ -86,11 +86,12 @@ func genC30(t *rapid.T) c30Case {
 	c := c30Case{}
 	c.Batch = lib.PackBatch(genC30Batch(t))
 	c.Compress = rapid.Bool().Draw(t, "compress")
-	if rapid.IntRange(0, 2).Draw(t, "mode") == 0 {
+	if rapid.IntRange(0, 1).Draw(t, "mode") == 0 {
 		c.Mode = "roundtrip"
 		if c.Compress {
 			// 0 = library default; 1..4 are the levels the zstd package knows; the doc comment allows 1-22
-			c.Level = []int{0, 1, 2, 3, 4, 4, 3, 1, 7, 19, 22}[rapid.IntRange(0, 10).Draw(t, "level")]
+			// (the code builds a fresh encoder per batch; the "better"/"best" encoders 3 and 4 cost tens of ms each, so they are drawn less often)
+			c.Level = []int{0, 1, 1, 2, 1, 0, 2, 1, 3, 4, 7, 22}[rapid.IntRange(0, 11).Draw(t, "level")]
 		}
 		c.Base = []string{"lo", "hi"}[rapid.IntRange(0, 1).Draw(t, "base")]
 		switch rapid.IntRange(0, 5).Draw(t, "deltakind") {
